@@ -87,9 +87,20 @@ def ref_tensor(spec) -> torch.Tensor:
     return t.to(DTYPES[spec["dtype"]])
 
 
+def _scratch_base():
+    """Memory-backed scratch space when there is one (directory churn on the disk-backed /tmp costs ~25 ms
+    per case here, 13x more); VERIF_SCRATCH overrides; None = tempfile's default."""
+    base = os.environ.get("VERIF_SCRATCH")
+    if base:
+        return base
+    if os.path.isdir("/dev/shm") and os.access("/dev/shm", os.W_OK | os.X_OK):
+        return "/dev/shm"
+    return None
+
+
 @contextlib.contextmanager
 def scratch_root():
-    root = tempfile.mkdtemp(prefix="vf_")
+    root = tempfile.mkdtemp(prefix="vf_", dir=_scratch_base())
     try:
         yield root
     finally:
